@@ -260,6 +260,27 @@ def mapRel : FieldRel where
   equiv a f := ∀ k, UMap.plookup (asPairs a) k = UMap.plookup (asPairs f) k
   post _ b r := ∃ l, r = .pairs l ∧ UMap.UniqueKeys l ∧ ∀ k, UMap.plookup l k = UMap.plookup (asPairs b) k
 
+theorem dedupKeysAux_unique (seen : List Nat) (l : List (Nat × Nat)) (hu : UMap.UniqueKeys l)
+    (hs : ∀ kv ∈ l, kv.1 ∉ seen) : dedupKeysAux seen l = l := by
+  induction l generalizing seen with
+  | nil => rfl
+  | cons kv t ih =>
+    obtain ⟨k, v⟩ := kv
+    simp only [UMap.UniqueKeys, List.map_cons, List.nodup_cons] at hu
+    have hk : seen.contains k = false := by
+      have := hs (k, v) List.mem_cons_self
+      simpa using this
+    simp only [dedupKeysAux, hk, Bool.false_eq_true, if_false]
+    rw [ih (k :: seen) hu.2]
+    intro kv' hkv'
+    simp only [List.mem_cons, not_or]
+    refine ⟨?_, hs kv' (List.mem_cons_of_mem _ hkv')⟩
+    intro e
+    exact hu.1 (e ▸ List.mem_map_of_mem (f := (·.1)) hkv')
+
+theorem dedupKeys_unique (l : List (Nat × Nat)) (hu : UMap.UniqueKeys l) : dedupKeys l = l :=
+  dedupKeysAux_unique [] l hu (by simp)
+
 theorem map_spec (ko : Bool) : FieldSpec (mapField ko) mapRel where
   refl _ _ _ := rfl
   same_refl _ _ _ := rfl
@@ -280,7 +301,7 @@ theorem map_spec (ko : Bool) : FieldSpec (mapField ko) mapRel where
       simp only [Option.map_some, Option.some.injEq] at hd
       subst hd
       obtain ⟨u, v⟩ := C12.roundtrip_follower al bl fl hal hbl hfl (fun k => (he k).symm) ko d hh
-      exact ⟨.pairs (UMap.apply fl d), rfl, ⟨_, rfl, u⟩, _, rfl, u, v⟩
+      exact ⟨.pairs (UMap.apply fl d), by simp only [mapField, asPairs, dedupKeys_unique _ u], ⟨_, rfl, u⟩, _, rfl, u, v⟩
   stay a b f ha hb hf he hd := by
     obtain ⟨al, rfl, hal⟩ := ha
     obtain ⟨bl, rfl, hbl⟩ := hb
